@@ -255,7 +255,15 @@ fn mips_words(thorough: bool) -> Vec<(u32, Option<u32>, usize)> {
     let delays: [u32; 8] = [0, 0x25080001, 0x25090003, 0x3c1f1234, 0x011f4021, 0x03e04825, 0x0128001a, 0xad280000];
     let mut v = Vec::new();
     // R-type
-    for (op, functs) in [(0u32, vec![0u32, 2, 3, 4, 6, 7, 0xa, 0xb, 0xc, 0xd, 0xf, 0x10, 0x11, 0x12, 0x13, 0x18, 0x19, 0x1a, 0x1b, 0x20, 0x21, 0x22, 0x23, 0x24, 0x25, 0x26, 0x27, 0x2a, 0x2b, 0x34]), (0x1c, vec![0, 1, 2, 4, 5, 0x20, 0x21])] {
+    // thorough: every function code of SPECIAL, SPECIAL2 and SPECIAL3 (whatever the lifter accepts is checked; what the
+    // reference does not model is listed in the evidence notes)
+    let all64: Vec<u32> = (0..64).collect();
+    let groups: Vec<(u32, Vec<u32>)> = if thorough {
+        vec![(0, all64.clone()), (0x1c, all64.clone()), (0x1f, all64.clone())]
+    } else {
+        vec![(0u32, vec![0u32, 2, 3, 4, 6, 7, 0xa, 0xb, 0xc, 0xd, 0xf, 0x10, 0x11, 0x12, 0x13, 0x18, 0x19, 0x1a, 0x1b, 0x20, 0x21, 0x22, 0x23, 0x24, 0x25, 0x26, 0x27, 0x2a, 0x2b, 0x34]), (0x1c, vec![0, 1, 2, 4, 5, 0x20, 0x21])]
+    };
+    for (op, functs) in groups {
         for f in functs {
             for rs in roles {
                 for rt in roles {
@@ -269,7 +277,8 @@ fn mips_words(thorough: bool) -> Vec<(u32, Option<u32>, usize)> {
         }
     }
     // I-type
-    for op in [8u32, 9, 0xa, 0xb, 0xc, 0xd, 0xe, 0xf, 0x20, 0x21, 0x22, 0x23, 0x24, 0x25, 0x26, 0x28, 0x29, 0x2a, 0x2b, 0x2e, 0x30, 0x33, 0x38] {
+    let itype: Vec<u32> = if thorough { (8..64).collect() } else { vec![8u32, 9, 0xa, 0xb, 0xc, 0xd, 0xe, 0xf, 0x20, 0x21, 0x22, 0x23, 0x24, 0x25, 0x26, 0x28, 0x29, 0x2a, 0x2b, 0x2e, 0x30, 0x33, 0x38] };
+    for op in itype {
         for rs in roles {
             for rt in roles {
                 for imm in &imms {
@@ -495,7 +504,8 @@ fn ppc_words(thorough: bool) -> Vec<u32> {
     let roles: [u32; 4] = [0, 3, 4, 31];
     let imms: Vec<u32> = if thorough { vec![0, 1, 4, 0x7fff, 0x8000, 0xfffc, 0xffff] } else { vec![1, 4, 0x7fff, 0x8000, 0xffff] };
     let mut v = Vec::new();
-    for op in [10u32, 11, 14, 15, 24, 32, 33, 34, 36, 37, 47] {
+    let dform: Vec<u32> = if thorough { (2..64).filter(|o| ![16u32, 17, 18, 19, 21, 31].contains(o)).collect() } else { vec![10u32, 11, 14, 15, 24, 32, 33, 34, 36, 37, 47] };
+    for op in dform {
         for rd in roles {
             for ra in roles {
                 for imm in &imms {
@@ -509,7 +519,8 @@ fn ppc_words(thorough: bool) -> Vec<u32> {
             }
         }
     }
-    for xo in [266u32, 202, 40, 444, 824, 339, 467] {
+    let xforms: Vec<u32> = if thorough { (0..1024).collect() } else { vec![266u32, 202, 40, 444, 824, 339, 467] };
+    for xo in xforms {
         for rd in roles {
             for ra in roles {
                 for rb in roles {
